@@ -14,9 +14,9 @@ fn t_df88591_push_char_all_chars() {
     s.push_char(c);
     assert!(s.len() == 1);
     let b = *s.iter().next().unwrap();
-    assert!(b == latin1(c));                                    // text.descriptor.char_to_byte
+    assert!(b == latin1(c), "text.descriptor.char_to_byte");                                    // text.descriptor.char_to_byte
     let back = s.chars().next().unwrap();
-    assert!(back as u32 == b as u32);                           // text.descriptor.byte_to_char  (b is never 0 here)
+    assert!(back as u32 == b as u32, "text.descriptor.byte_to_char");                           // text.descriptor.byte_to_char  (b is never 0 here)
     // try_push agrees and respects the capacity
     let mut t = Df88591String::<7>::new();
     assert!(t.try_push(c).is_ok());
@@ -30,7 +30,7 @@ fn t_df88591_push_all_bytes() {
     let mut s = Df88591String::<7>::new();
     s.push(v);
     let b = *s.iter().next().unwrap();
-    assert!(b == if v == 0 { 0xa4 } else { v });                // text.descriptor.push_nul_placeholder
+    assert!(b == if v == 0 { 0xa4 } else { v }, "text.descriptor.push_nul_placeholder");                // text.descriptor.push_nul_placeholder
     assert!(s.chars().next().unwrap() as u32 == b as u32);
 }
 
@@ -43,13 +43,13 @@ fn t_df88591_collect_keeps_first_n() {
     kani::assume(k <= 9);
     let s: Df88591String<7> = cs[..k].iter().copied().collect();
     let want = if k < 7 { k } else { 7 };
-    assert!(s.len() == want);                                   // text.descriptor.keeps_first_n
+    assert!(s.len() == want, "text.descriptor.keeps_first_n");                                   // text.descriptor.keeps_first_n
     let i: usize = kani::any();
     kani::assume(i < want);
     let mut it = s.iter();
     let mut j = 0; let mut b = 0u8;
     while j <= i { b = *it.next().unwrap(); j += 1; }
-    assert!(b == latin1(cs[i]));                                // text.descriptor.maps_each_char
+    assert!(b == latin1(cs[i]), "text.descriptor.maps_each_char");                                // text.descriptor.maps_each_char
     // full: one more is refused
     let mut t = s.clone();
     if want == 7 { assert!(t.try_push('x').is_err()); assert!(t.len() == 7); }
@@ -71,8 +71,8 @@ fn t_arraystring_try_push_all_chars() {
     let before = s.len();
     assert!(before == fill);
     let rc = s.try_push(c);
-    assert!(rc.is_ok() == (before + utf8_len(c) <= 7));         // text.utf8.capacity_by_bytes
-    assert!(s.len() == before + if rc.is_ok() { utf8_len(c) } else { 0 });   // text.utf8.refused_push_changes_nothing
+    assert!(rc.is_ok() == (before + utf8_len(c) <= 7), "text.utf8.capacity_by_bytes");         // text.utf8.capacity_by_bytes
+    assert!(s.len() == before + if rc.is_ok() { utf8_len(c) } else { 0 }, "text.utf8.refused_push_changes_nothing");   // text.utf8.refused_push_changes_nothing
 }
 
 // thorough tier: the bytes stay valid UTF-8 (Deref = from_utf8(..).unwrap() must not panic) and the char reads back
@@ -87,7 +87,7 @@ fn t_arraystring_always_valid_utf8() {
     let c: char = kani::any();
     let rc = s.try_push(c);
     let st: &str = &s;
-    assert!(st.len() == s.len());                               // text.utf8.always_valid
+    assert!(st.len() == s.len(), "text.utf8.always_valid");                               // text.utf8.always_valid
     if rc.is_ok() { assert!(st.chars().last() == Some(c)); }    // text.utf8.round_trips_chars
 }
 
@@ -99,5 +99,5 @@ fn t_arraystring_collect_longest_prefix() {
     let s: ArrayString<7> = cs.iter().copied().collect();
     let (l0, l1, l2) = (utf8_len(cs[0]), utf8_len(cs[1]), utf8_len(cs[2]));
     let total = if l0 + l1 > 7 { l0 } else if l0 + l1 + l2 > 7 { l0 + l1 } else { l0 + l1 + l2 };
-    assert!(s.len() == total);                                  // text.utf8.longest_fitting_prefix
+    assert!(s.len() == total, "text.utf8.longest_fitting_prefix");                                  // text.utf8.longest_fitting_prefix
 }
